@@ -2,11 +2,11 @@
 from __future__ import annotations
 from fractions import Fraction
 import numpy as np
-import impl, gen
+import impl, gen, scale
 from common import frac, float_is_quotient, close, score_matches
 from impl import Metric, quiet
 
-RULE = ("fragmented predictions with 8-60 sparse/dense instance ids and label lists of up to 80 entries; the same array objects scored repeatedly with in-place edits in between; object-based 1-3-D label maps x dtypes {bool,uint8..64,int32,int64} x reference label (present/absent) x "
+RULE = ("large-scale corpus (oracle only): masks of 2^22+1 .. 2^24+3 voxels in a 25M-voxel array, identical / shifted / two-label unions, judged by exact integer counts; fragmented predictions with 8-60 sparse/dense instance ids and label lists of up to 80 entries; the same array objects scored repeatedly with in-place edits in between; object-based 1-3-D label maps x dtypes {bool,uint8..64,int32,int64} x reference label (present/absent) x "
         "prediction label or list of 1-4 labels (present/absent, non-consecutive) x with/without selection; "
         "exhaustive {0,1,2}-arrays of 4 cells x all (r, ps); non-trivial = both selected masks non-empty and different; "
         "distinct = hash of (arrays, selection, metric)")
@@ -220,8 +220,53 @@ def corpus(ctx):
         one_case(ctx, big, p, 300, 300, metric, "corpus.uint16")
 
 
+BIG = 2 ** 24
+
+
+def scale_recipes():
+    """masks whose sizes / overlaps straddle 2^24 voxels (where float32 counting stops being exact) and 2^20-2^22"""
+    out = []
+    shape = [3, 2048, 4096]                                   # 25 165 824 voxels
+    for n, shift in ((BIG + 1, 0), (BIG + 1, 5), (BIG + 3, 2 ** 22 + 1), (2 ** 22 + 1, 3)):
+        out.append(({"kind": "runs", "shape": shape, "dtype": "uint8", "ref_runs": [[0, n, 1]], "pred_runs": [[shift, n, 1]]}, 1, [1]))
+    # two prediction labels whose union is the reference; a third label elsewhere
+    out.append(({"kind": "runs", "shape": shape, "dtype": "uint16", "ref_runs": [[7, BIG + 9, 300]],
+                 "pred_runs": [[7, BIG // 2 + 4, 40000], [7 + BIG // 2 + 4, BIG // 2 + 5, 2], [BIG + 100, 999, 9]]}, 300, [40000, 2]))
+    return out
+
+
+def scale_case(ctx, rec, r, ps, src):
+    """oracle-only (arrays far too large for the line protocol): exact integer counts with numpy"""
+    pred, ref = scale.build(rec)
+    for sel in (True, False):
+        if sel:
+            R, P = (ref == r), np.isin(pred, ps)
+        else:
+            R, P = (ref != 0), (pred != 0)
+        i, nr, np_ = int(np.count_nonzero(R & P)), int(np.count_nonzero(R)), int(np.count_nonzero(P))
+        for metric in ("IOU", "DSC", "RVD"):
+            want = {"IOU": Fraction(i, nr + np_ - i), "DSC": Fraction(2 * i, nr + np_), "RVD": Fraction(np_ - nr, nr)}[metric]
+            inp = {"recipe": rec, "r": r if sel else None, "ps": ps if sel else None, "m": metric, "src": src}
+            ctx.case(inp, True)
+            ctx.count("scale_oracle_only")
+            got = call_impl(metric, ref, pred, r, ps) if sel else call_impl(metric, (ref != 0).astype(np.uint8), (pred != 0).astype(np.uint8), None, None)
+            if got == "ZeroDivisionError" or not float_is_quotient(float(got), want):
+                ctx.violation(f"{metric} differs from its set-theoretic definition on a large mask: got {got!r}, definition gives {want} "
+                              f"(|X|={nr}, |Y|={np_}, |X∩Y|={i})", inp, impl=repr(got), model=str(want), key={"metric": metric},
+                              observable="Metric value")
+            elif metric in ("IOU", "DSC") and (float(got) == 1.0) != (i == nr == np_):
+                ctx.violation(f"{metric}==1 iff identical masks violated on a large mask: {got!r}", inp, impl=repr(got))
+
+
+def scale_cases(ctx):
+    recs = scale_recipes()
+    for k, (rec, r, ps) in enumerate(recs if not ctx.quick else recs[:3] + recs[-1:]):
+        scale_case(ctx, rec, r, ps, f"scale{k}")
+
+
 def run(ctx):
     corpus(ctx)
+    scale_cases(ctx)
     exhaustive_cases(ctx, (1, 3) if ctx.quick else (2, 2))
     random_cases(ctx, ctx.scale(400, 4000))
     sparse_list_cases(ctx, ctx.scale(40, 400))
@@ -243,6 +288,9 @@ def search(ctx):
 
 def replay(ctx, rec):
     inp = rec["input"]
+    if "recipe" in inp:
+        scale_case(ctx, inp["recipe"], inp.get("r") or 1, inp.get("ps") or [1], "replay")
+        return
     dt = np.dtype(inp.get("dtype", "int64"))
     ref = np.array(inp["ref"]).reshape(inp["shape"]).astype(dt)
     pred = np.array(inp["pred"]).reshape(inp["shape"]).astype(dt)
